@@ -504,6 +504,43 @@ func runC26Consumers(c *Ctx) {
 	if nRead < 4 || nWrite < 1 {
 		c.undecided("C26.header-compressed", "header bloom field uses", token.NoPos, fmt.Sprintf("expected ≥4 readers and ≥1 writer, found %d/%d", nRead, nWrite))
 	}
+	// receipts: from version 3 on the stored bloom is the compressed form
+	if f := c.mustFn("service/txresult", "receipt", "RLPDecodeSelf"); f != nil {
+		v3, okV := c.constVal("service/txresult", "Version3")
+		comp := c.calls(f, byCallee("LogsBloom).SetCompressedBytes"))
+		raw := c.calls(f, func(cc *ssa.CallCommon) bool {
+			r, _ := callArgs(cc)
+			return calleeName(cc) == "(*math/big.Int).SetBytes" && r != nil && strings.Contains(render(r), "LogsBloom")
+		})
+		if !okV || len(comp) != 1 || len(raw) != 1 {
+			c.violate("C26.receipt-form", "receipt decoder reads the bloom in the form of its version", f.Pos(), fmt.Sprintf("%d compressed / %d raw reads of the bloom field (expected one each): version-3 receipts store the compressed form, older ones the raw form", len(comp), len(raw)))
+		} else {
+			c.requireAt("C26.receipt-form", "compressed read of the receipt bloom", comp[0].Instr, wGE("version ≥ 3", -v3, t(1, `^\$r\.version$`)))
+			c.requireAt("C26.receipt-form", "raw read of the receipt bloom", raw[0].Instr, wGE("version < 3", v3-1, t(-1, `^\$r\.version$`)))
+			_, a1 := callArgs(comp[0].Common())
+			_, a2 := callArgs(raw[0].Common())
+			c.check(render(a1[0]) == render(a2[0]), "C26.receipt-form", "both reads take the decoded bloom field", comp[0].Pos(), render(a1[0]), "compressed read of "+render(a1[0])+", raw read of "+render(a2[0]))
+			// no successful exit without one of them
+			for _, e := range successAlts(f) {
+				_, by := pathAvoiding(f, f.Blocks[0].Instrs[0], func(in ssa.Instruction) bool { return in == ssa.Instruction(e.Ret) }, func(in ssa.Instruction) bool {
+					return in == ssa.Instruction(comp[0].Instr) || in == ssa.Instruction(raw[0].Instr)
+				})
+				c.check(!by, "C26.receipt-form", "a decoded receipt always has its bloom read", e.pos(), "one of the two reads on every path", "the decoder can succeed without reading the bloom")
+			}
+		}
+		// the cached compressed bytes are the compressed form
+		for _, fn := range c.pkgFuncs("service/txresult") {
+			for _, st := range fieldStores([]*ssa.Function{fn}, "receipt", "logsBloom") {
+				r := render(st.Store.Val)
+				okC := strings.HasSuffix(r, ".CompressedBytes()") || isNilConst(st.Store.Val)
+				if !okC && len(comp) == 1 && fn == f {
+					_, a1 := callArgs(comp[0].Common())
+					okC = render(a1[0]) == r
+				}
+				c.check(okC, "C26.receipt-form", fnName(fn)+": the cached bloom bytes are the compressed form", st.Store.Pos(), r, "r.logsBloom = "+r)
+			}
+		}
+	}
 	if f := c.mustFn("service/txresult", "LogsBloom", "LogBytes"); f != nil {
 		okA := false
 		for _, cs := range c.calls(f, byCallee("builtin:copy")) {
